@@ -100,6 +100,17 @@ func (b *busEvents) filterCall(fc *FrameCtx, in ssa.Instruction) (regCanon strin
 					return rc, call, true
 				}
 			}
+			// a helper that is handed the registration and evaluates its filter
+			if o := sc.Origin(); o != nil {
+				sc = o
+			}
+			if b.R.FilterHelpers[sc] {
+				for _, a := range call.Common().Args {
+					if pt, ok := a.Type().Underlying().(*types.Pointer); ok && b.R.RegT != nil && types.Identical(pt.Elem(), b.R.RegT) {
+						return b.E.CanonS(fc, a), call, true
+					}
+				}
+			}
 		}
 		return "", nil, false
 	}
@@ -403,4 +414,107 @@ func publishCtxPhiCanons(fn *ssa.Function) []string {
 		}
 	}
 	return out
+}
+
+// pubCtxOracle decides structurally (not along one path) whether a value is the publish
+// context: PublishContext's ctx parameter, what Observability.OnPublishStart returned for
+// it, a phi / captured cell / parameter / helper result all of whose sources are.
+type pubCtxOracle struct {
+	p     *Prog
+	R     *BusRoles
+	ix    *ipIndex
+	cells *cellIndex
+	memo  map[ssa.Value]int // 1 yes, 2 no, 3 in progress
+}
+
+func newPubCtxOracle(p *Prog, R *BusRoles, cells *cellIndex) *pubCtxOracle {
+	return &pubCtxOracle{p: p, R: R, ix: newIPIndex(p), cells: cells, memo: map[ssa.Value]int{}}
+}
+
+func (o *pubCtxOracle) is(v ssa.Value) bool { return o.walk(v, 0) }
+
+func (o *pubCtxOracle) walk(v ssa.Value, d int) bool {
+	v = stripConv(v)
+	if v == nil || d > 10 {
+		return false
+	}
+	switch o.memo[v] {
+	case 1:
+		return true
+	case 2:
+		return false
+	case 3:
+		return true // a cycle through phis adds nothing new
+	}
+	o.memo[v] = 3
+	res := false
+	switch x := v.(type) {
+	case *ssa.Parameter:
+		if x.Parent() == o.R.PublishFn {
+			res = isNamed(x.Type(), "context", "Context")
+		} else if args := o.ix.argFor(x); len(args) > 0 {
+			res = true
+			for _, a := range args {
+				if !o.walk(a, d+1) {
+					res = false
+				}
+			}
+		}
+	case *ssa.Phi:
+		res = len(x.Edges) > 0
+		for _, ed := range x.Edges {
+			if !o.walk(ed, d+1) {
+				res = false
+			}
+		}
+	case *ssa.Extract:
+		res = o.callResult(x.Tuple, x.Index, d)
+	case *ssa.Call:
+		res = o.callResult(x, 0, d)
+	case *ssa.UnOp:
+		if x.Op == token.MUL {
+			var al *ssa.Alloc
+			switch a := x.X.(type) {
+			case *ssa.Alloc:
+				al = a
+			case *ssa.FreeVar:
+				al = o.cells.freeAlloc[a]
+			}
+			if al != nil && len(o.cells.stores[al]) > 0 {
+				res = true
+				for _, sv := range o.cells.stores[al] {
+					if !o.walk(sv, d+1) {
+						res = false
+					}
+				}
+			}
+		}
+	}
+	if res {
+		o.memo[v] = 1
+	} else {
+		o.memo[v] = 2
+	}
+	return res
+}
+
+func (o *pubCtxOracle) callResult(v ssa.Value, idx, d int) bool {
+	call, ok := v.(*ssa.Call)
+	if !ok {
+		return false
+	}
+	cc := call.Common()
+	if cc.IsInvoke() {
+		return cc.Method.Name() == "OnPublishStart" && len(cc.Args) > 0 && o.walk(cc.Args[0], d+1)
+	}
+	rs := o.ix.Returned(call, idx)
+	if len(rs) == 0 {
+		return false
+	}
+	for _, r := range rs {
+		if !o.walk(r, d+1) {
+			return false
+		}
+	}
+	return true
 }
